@@ -282,7 +282,7 @@ func parent(ck *checks.Check, tier string, dl time.Duration) int {
 		// it in the shard cannot matter, so only "alone" and "k of 20" apply
 		own := f.Case.Fam == "race"
 		switch {
-		case reproduces(self, ck, &f, nil, 5) == 5:
+		case !own && reproduces(self, ck, &f, nil, 5) == 5:
 			f.History = nil
 		case own && strings.Contains(f.Msg, "DATA RACE"):
 			// the detector only reports races that happened: one report is proof; say how often it shows
@@ -315,6 +315,9 @@ func parent(ck *checks.Check, tier string, dl time.Duration) int {
 				continue
 			}
 			mode = fmt.Sprintf("intermittent: the same call shows it in %d of 20 freshly started processes (the library does not behave deterministically)", k)
+			if k == 20 {
+				mode = "reproduces in 20 of 20 freshly started processes"
+			}
 			f.History = nil
 		}
 		if mode != "" {
